@@ -51,7 +51,7 @@ AXES = {
     "cap_style_val": VALS,
     # "nested-*": an outer styled span that contains a style node no DFXP writer can express (bold only / underline
     # only / empty) - balanced, properly nested
-    "span_style": [None, "italics", "italics+color", "class-defined", "class-undefined", "color-only", "nested-bold", "nested-underline", "nested-empty", "text-align", "layout-on-text-only"],
+    "span_style": [None, "italics", "italics+color", "class-defined", "class-undefined", "color-only", "nested-bold", "nested-underline", "nested-empty", "text-align", "layout-on-text-only", "class-named-like-a-region"],
     "span_val": VALS,
     # "bottom" / "r0": the names the writers give to the default region and to the first region they create
     "set_style_id": [None] + VALS[1:7] + ["p", "default", "bottom", "r0"],
@@ -127,6 +127,8 @@ def build(cfg):
                 "italics+color": {"italics": True, "color": cfg["span_val"]},
                 "class-defined": {"class": cfg["span_val"]},
                 "class-undefined": {"class": "nosuch" + cfg["span_val"]},
+                # ... and an undefined class that is called like the writers' default region
+                "class-named-like-a-region": {"class": "bottom", "italics": True},
                 "color-only": {"color": cfg["span_val"], "font-family": cfg["span_val"]},
                 # a style attribute that positioning writes too (tts:textAlign)
                 "text-align": {"text-align": "center", "italics": True},
